@@ -556,7 +556,7 @@ def run_case(ctx, case):
 
 def make_cases(chk):
     rng = random.Random(f"C04:{chk.seed}:{chk.tier}")
-    n = chk.pick(300, 6000)
+    n = chk.pick(1800, 6000)
     cases = []
     for i in range(n):
         tree = rng.random() < 0.4
@@ -586,7 +586,7 @@ def main(chk):
         "lists/typedefs, typedef names, friends, static globals, function-like macros, forcetype'd published members, "
         "element records (without accessors) of members whose type is private",
     ]
-    chk.min_conclusive = chk.pick(200, 4000)
+    chk.min_conclusive = chk.pick(1200, 4000)
     chk.run_cases(__name__, make_cases(chk))
     chk.extra["entities_generated"] = chk.counters.get("entities", 0)
     # Appendix D: one row per gate -- how many classified names (must / must-not / unspecified) carried each tag
